@@ -87,7 +87,16 @@ def module_case(c):
         xi = x.clone().requires_grad_(True)
         for p in q.parameters():
             p.grad = None
-        y = q(xi)
+        if c.get("in_calibration") and act is not None:
+            # training-time calibration: the forward runs inside a Calibration context with autograd enabled; gradients must still flow
+            from optimum.quanto import Calibration
+            s_in, s_out = q.input_scale.clone(), q.output_scale.clone()
+            with Calibration(momentum=1.0 - 1e-12, streamline=False):
+                y = q(xi)
+            with torch.no_grad():
+                q.input_scale, q.output_scale = s_in, s_out  # the twin below uses the scales the forward used (momentum ~ 1 keeps them)
+        else:
+            y = q(xi)
         yd = deq(y)
         g = torch.randn(yd.shape, generator=gen).to(dtype)
         if c["layout"] == "permuted" and g.ndim >= 2:
@@ -104,6 +113,15 @@ def module_case(c):
             st["msg"] = str(ex)[:300]
             steps.append(st)
             break
+        # ---- the gradients handed back own their storage: overwriting the upstream gradient buffer afterwards (a reused,
+        # pre-allocated buffer) must not change them
+        held = {"x": xi.grad, "w": None if c["frozen"] else q.weight.grad, "b": None if q.bias is None else q.bias.grad}
+        before = {k_: (None if v_ is None else v_.detach().clone()) for k_, v_ in held.items()}
+        if g.is_contiguous():
+            g_saved = g.clone()
+            g.mul_(3.0).add_(1.0)
+            st["grads_alias_upstream"] = [k_ for k_, v_ in held.items() if v_ is not None and not torch.equal(v_, before[k_])]
+            g.copy_(g_saved)
         # ---- the float twin: same module class, dequantized quantized weight, (de)quantized input, all leaves
         with torch.no_grad():
             qw = q.qweight
@@ -157,10 +175,20 @@ def module_case(c):
             with torch.no_grad():
                 if not c["frozen"]:
                     delta = torch.randn(q.weight.shape, generator=gen).to(dtype) * 0.5
+                    if c.get("warm_no_grad"):
+                        q(x.detach())  # an evaluation pass without autograd right before the update (what a validation loop does)
                     if c.get("update_via") == "data":
                         q.weight.data.add_(delta)  # hand-written SGD / clipping / EMA: does not bump the version counter
+                    elif c.get("update_via") == "assign_data":
+                        q.weight.data = (q.weight.data + delta).clone()  # what Module.to() / _apply do: same Parameter, same version, new storage
+                    elif c.get("update_via") == "state_dict":
+                        sd_ = {k_: (v_.clone() if isinstance(v_, torch.Tensor) else v_) for k_, v_ in q.state_dict().items()}
+                        sd_["weight"] = sd_["weight"] + delta
+                        q.load_state_dict(sd_)
                     else:
                         q.weight.add_(delta)
+                    if c.get("warm_no_grad"):
+                        q(x.detach())
     r["steps"] = steps
     return r
 
